@@ -229,9 +229,10 @@ PYOPS = {"==": operator.eq, "!=": operator.ne, "<": operator.lt, "<=": operator.
 def stream_case(draw):
     ndesc = draw(st.integers(2, 4))
     descs = []
+    same_names = draw(st.booleans())  # two generations of one record type: same name, different field sets
     for i in range(ndesc):
         has = draw(st.booleans()) if i > 0 else True
-        descs.append({"name": "c08/t%d" % i, "has": has})
+        descs.append({"name": "c08/t%d" % (i % 2 if same_names else i), "has": has})
     if all(d["has"] for d in descs):
         descs[-1]["has"] = False
     nfiles = draw(st.integers(1, 3))
@@ -288,6 +289,8 @@ def check_stream(case, ctx):
             w.close()
             paths.append(p)
         ctx.cls("via:" + case["via"], "engine:" + case["engine"], "op:" + op)
+        if len({d["name"] for d in case["descs"]}) < len(case["descs"]):
+            ctx.cls("same-name-different-fields")
         if lacking and expected:
             ctx.nontriv()
         sel = make(case["engine"], expr)
